@@ -549,3 +549,26 @@ M("C18", "ct-subelement-case", SLC, '"sub_element": PCCC_CT[t.group("sub_element
 M("C18", "lfbn-filetype-raw", SLC, '                return {\n                    "file_type": t.group("file_type").upper(),\n                    "file_number": t.group("file_number"),\n                    "element_number": t.group("element_number"),\n                    "sub_element": t.group("sub_element"),\n                    "address_field": 3,', '                return {\n                    "file_type": t.group("file_type"),\n                    "file_number": t.group("file_number"),\n                    "element_number": t.group("element_number"),\n                    "sub_element": t.group("sub_element"),\n                    "address_field": 3,', ["D18.10"])
 T("C18", "io-filenumber-lower", SLC, '        file_number = "0" if t.group("file_type").upper() == "O" else "1"', '        file_number = "0" if t.group("file_type").lower() == "o" else "1"')
 T("C18", "io-filenumber-in", SLC, '        file_number = "0" if t.group("file_type").upper() == "O" else "1"', '        file_number = "0" if t.group("file_type") in ("O", "o") else "1"')
+
+# D11.7 header values passed through
+M("C11", "context-tagged-with-sequence", PE, "    ):\n\n        return super().build_request(target_cid, session_id, context, option, **kwargs)", "    ):\n        context = context[:4] + b\"%04d\" % self._sequence\n        return super().build_request(target_cid, session_id, context, option, **kwargs)", ["D11.7"])
+M("C11", "option-replaced", PE, "        return super().build_request(target_cid, session_id, context, option, **kwargs)", "        return super().build_request(target_cid, session_id, context, 0, **kwargs)", ["D11.7"])
+T("C11", "override-keywords", PE, "        return super().build_request(target_cid, session_id, context, option, **kwargs)", "        return super().build_request(target_cid, session_id, context=context, option=option, **kwargs)")
+
+# fragment size redefinitions (D2.4 / D4.4)
+_SEG = "            segment_size = self.connection_size - (len(request.message) - len(request.value))\n"
+_GEN_END = "                for i in range(0, len(request.value), segment_size)\n            )\n"
+M("C04", "fragment-min-one-element", LX, _SEG, _SEG + "            element_size = _tag_return_size({\"tag_info\": request.tag_info, \"elements\": 1})\n            segment_size = max(element_size, segment_size - segment_size % element_size)\n", ["D4.4"])
+M("C02", "fragment-stride-lazy", LX, _GEN_END, _GEN_END + "            element_size = len(request.value) // max(request.elements, 1)\n            if 0 < element_size < segment_size:\n                segment_size -= segment_size % element_size\n", ["D2.4"])
+M("C04", "fragment-stride-lazy", LX, _GEN_END, _GEN_END + "            element_size = len(request.value) // max(request.elements, 1)\n            if 0 < element_size < segment_size:\n                segment_size -= segment_size % element_size\n", ["D4.4"])
+T("C02", "fragment-round-down-guarded", LX, _SEG, _SEG + "            element_size = len(request.value) // max(request.elements, 1)\n            if 0 < element_size < segment_size:\n                segment_size -= segment_size % element_size\n")
+T("C04", "fragment-round-down-guarded", LX, _SEG, _SEG + "            element_size = len(request.value) // max(request.elements, 1)\n            if 0 < element_size < segment_size:\n                segment_size -= segment_size % element_size\n")
+T("C04", "fragment-min-cap", LX, _SEG, _SEG + "            segment_size = min(segment_size, 480)\n")
+
+# D9.8 subscripts helper on witnesses
+_FTI_OLD = '    if "[" in tag:  # Check if is an array tag\n        t = tag[: len(tag) - 1]  # Remove the last square bracket\n        inside_value = t[t.find("[") + 1 :]  # Isolate the value inside bracket\n        index = inside_value.split(\n            ","\n        )  # Now split the inside value in case part of multidimensional array\n        tag = t[: t.find("[")]  # Get only the tag part\n    else:\n        index = []\n    return tag, index\n'
+M("C09", "subscripts-regex-last-group", PU, _FTI_OLD, '    match = _TAG_INDEX.search(tag)\n    if match:\n        index = [idx for idx in match.groups() if idx is not None]\n        tag = tag[: match.start()]\n    else:\n        index = []\n    return tag, index\n', ["D9.8"],
+  more=[(PU, "def _find_tag_index(tag):", '_TAG_INDEX = re.compile(r"\\[\\s*(\\d+)(?:\\s*,\\s*(\\d+))*\\s*\\]$")\n\n\ndef _find_tag_index(tag):'), (PU, "import string\n", "import re\nimport string\n")])
+T("C09", "subscripts-regex-findall", PU, _FTI_OLD, '    match = _TAG_INDEX.search(tag)\n    if match:\n        index = _DIGITS.findall(match.group(0))\n        tag = tag[: match.start()]\n    else:\n        index = []\n    return tag, index\n',
+  more=[(PU, "def _find_tag_index(tag):", '_TAG_INDEX = re.compile(r"\\[[\\d,\\s]*\\]$")\n_DIGITS = re.compile(r"\\d+")\n\n\ndef _find_tag_index(tag):'), (PU, "import string\n", "import re\nimport string\n")])
+M("C09", "subscripts-first-two", PU, '        index = inside_value.split(\n            ","\n        )', '        index = inside_value.split(\n            ","\n        )[:2]', ["D9.8"])
